@@ -31,8 +31,8 @@ Z3_TIMEOUT_MS = 30000
 ACCESSORS = ['n_eff', 'log_z', 'eta', 'f_live', 'log_v_live',
              'effective_sample_size', 'evidence',
              'asymptotic_sampling_efficiency', 'discard_exploration']
-UNITS = ACCESSORS + ['write', 'write_shell_update', 'pool_map', 'static',
-                     'evaluate_likelihood']
+UNITS = ACCESSORS + ['write', 'write_shell_update', 'pool_map', 'pool_init',
+                     'static', 'evaluate_likelihood']
 BRANCH_COVERED_FUNCTIONS = ()
 DEAD_BRANCHES = ()
 _EX = {}
@@ -182,6 +182,8 @@ def build(cx, fe, tier, info, only=None):
         fn_entry(fe, info, SQ + 'write_shell_update')
     if only in (None, 'pool_map'):
         pool_map_unit(cx, fe, info, reg, ex)
+    if only in (None, 'pool_init'):
+        pool_init_unit(cx, fe, info)
     if only in (None, 'static'):
         static_obligations(cx, fe, info)
     if only in (None, 'evaluate_likelihood'):
@@ -249,6 +251,78 @@ def pool_map_unit(cx, fe, info, reg, ex):
     c = FnContract(q, params=['func', 'iterable'], post=post)
     verify_function(ex, q, c, env)
     fn_entry(fe, info, q)
+
+
+def pool_init_unit(cx, fe, info):
+    """NautilusPool(pool, likelihood): an integer creates a NEW worker pool
+    whose workers are initialised with exactly this likelihood; anything else
+    is used as it is. No state is shared between two NautilusPool objects."""
+    q = 'nautilus.pool.NautilusPool.__init__'
+    for is_int in (True, False):
+        reg = new_registry(fe)
+        G = {}
+
+        def Pool(ex_, st, args, kw, node, G=G):
+            G['calls'] = G.get('calls', 0) + 1
+            G['n'] = args[0] if args else None
+            G['initializer'] = kw.get('initializer')
+            G['initargs'] = kw.get('initargs')
+            return Opaque('new_worker_pool')
+        reg.lib['Pool'] = Pool
+        reg.globals['Pool'] = Lib('Pool')
+        reg.globals['initialize_worker'] = Opaque('initialize_worker')
+
+        def isinstance_hook(ex_, st, v, ty, node, is_int=is_int):
+            if isinstance(v, Opaque) and v.what == 'pool_argument':
+                return is_int
+            return NotImplemented
+        reg.isinstance_hook = isinstance_hook
+        ex = Executor(cx, fe, reg)
+
+        def env(ex_, st, G=G):
+            G.clear()
+            self_ = st.alloc(ObjRec('NautilusPool', {}), 'self')
+            G['like'] = Opaque('likelihood')
+            G['arg'] = Opaque('pool_argument')
+            return dict(self=self_, pool=G['arg'], likelihood=G['like'])
+
+        def post(Vo, Vn, res, G=G, is_int=is_int):
+            rec = Vn.st.cell(Vn.raw('self'))
+            p = rec.fields.get('pool')
+            if not is_int:
+                return [('a_given_pool_is_used_as_it_is', z3.BoolVal(
+                    p is G['arg'] and G.get('calls', 0) == 0))]
+            ia = G.get('initargs')
+            ia = ia if isinstance(ia, (tuple, list)) else ()
+            return [('an_integer_creates_one_new_worker_pool', z3.BoolVal(
+                isinstance(p, Opaque) and p.what == 'new_worker_pool' and
+                G.get('calls', 0) == 1 and G.get('n') is G['arg'])),
+                ('workers_are_initialised_with_this_likelihood', z3.BoolVal(
+                    isinstance(G.get('initializer'), Opaque) and
+                    G['initializer'].what == 'initialize_worker' and
+                    len(ia) == 1 and ia[0] is G['like']))]
+        c = FnContract(q, params=['pool', 'likelihood'],
+                       defaults=dict(likelihood=None), post=post)
+        verify_function(ex, q, c, env, frame_obj='none', check_frame=False,
+                        tag='[integer={}]'.format(is_int))
+    fn_entry(fe, info, q)
+    # the module keeps no state besides the likelihood handed to a worker
+    src = fe.module_src['nautilus.pool']
+    tree = ast.parse(src)
+    glob = []
+    for n in tree.body:
+        if isinstance(n, (ast.Assign, ast.AnnAssign, ast.AugAssign)):
+            glob.append(ast.unparse(n)[:60])
+    for fn in ast.walk(tree):
+        if isinstance(fn, ast.FunctionDef):
+            for n in ast.walk(fn):
+                if isinstance(n, ast.Global) and fn.name != \
+                        'initialize_worker':
+                    glob.append('{}: global {}'.format(fn.name, n.names))
+    cx.prefix = 'static/'
+    cx.oblige(State(), 'pool/no_module_level_state', z3.BoolVal(not glob),
+              kind='effect', detail=str(glob))
+    cx.prefix = ''
 
 
 ALLOWED_RANDOM = {
